@@ -350,14 +350,14 @@ def run(chk: core.Check):
             chk.samples.append({"stream": name + "/model", "line": sbs_line(ok[0])[:200], "model": outs[0][:200]})
 
     rng = core.rng_for(chk.seed, "C07/sbs")
-    hash_stream("sbs-hash", [gen_sbs(rng, nmax) for _ in range(N)])
+    hash_stream("sbs-hash", core.Gen(gen_sbs, rng, nmax, N))
     rng = core.rng_for(chk.seed, "C07/pair")
-    chk.run_stream("pair", [gen_pair(rng, nmax) for _ in range(N // 4)], impl_pair, oracle=oracle_pair,
+    chk.run_stream("pair", core.Gen(gen_pair, rng, nmax, N // 4), impl_pair, oracle=oracle_pair,
                    site="SeededBinarySegmentation/monotone",
                    skip=lambda c, r: r["outcome"][5:] if r["outcome"].startswith("skip:") else None,
                    nontrivial=lambda c, r: r.get("outcome") == "ok" and len(r["lo"]) > len(r["hi"]))
     rng = core.rng_for(chk.seed, "C07/builtin")
-    chk.run_stream("builtin", [gen_builtin(rng, min(nmax + 6, 30)) for _ in range(N // 4)], impl_builtin, oracle=oracle_builtin,
+    chk.run_stream("builtin", core.Gen(gen_builtin, rng, min(nmax + 6, 30), N // 4), impl_builtin, oracle=oracle_builtin,
                    site="SeededBinarySegmentation/builtin",
                    nontrivial=lambda c, r: r.get("outcome") == "ok" and len(r["cps"]) > 0,
                    describe=lambda c: {k: v for k, v in c.items() if k != "X"} | {"X[:4]": c["X"][:4]})
